@@ -1,9 +1,16 @@
 """C05 - task ids stay unique inside every WBS and tree; lookup by id is exact.   (DESIGN.md section 5, C05)
 
 Decided: the id field is immutable; the id-intersection guard precedes every write that can attach a foreign task
-(both modes of both setters); the receiving tree is found by ascending to the WBS root task (not through the public
-`parent`, which hides it); the intersection test filters by object identity, rejects duplicates inside the argument and
-compares ids exactly; lookup and enumeration shapes.  Relies on C01 for the forest invariant.
+(both modes of both setters); everything the per-child parent assignment can reject is pre-validated by the children setter
+(a children assignment that fails midway leaves dropped-but-still-attached tasks, which later skip the id check); the
+receiving tree is found by ascending to the WBS root task (not through the public `parent`, which hides it) - decided on the
+expanded return values / path conditions of _find_root, so recursion, guard clauses, hoisted locals and upward loops are the
+same; the intersection test (c05_util.IdCheck: abstract evaluation of the collections, result as a formula over
+empty/duplicates/intersects atoms) filters by object identity, rejects duplicates inside the argument and compares ids exactly;
+lookup (next(..) / search loop / recursive depth-first helper) and enumeration shapes; a memoised all_children whose
+invalidation misses a child-list change or does not reach the WBS root task.  Relies on C01 for the forest invariant.
+Not decided: a memoised all_children whose invalidation looks complete (UNDECIDED); id tests written with running `picked`
+sets or other idioms the evaluator does not model (UNDECIDED).
 """
 from __future__ import annotations
 
@@ -57,6 +64,12 @@ def check(ctx):
                "children setter: _has_id_intersection(task, value) rejects with RuntimeError before any relation write, for a detached and "
                "for an attached receiver", floor=2)
     ctx.guarded(o, lambda o: children_mode(ctx, o, eff))
+
+    o = ctx.ob('children_assignment_atomic', 'R3',
+               "children setter: everything the per-child parent assignment can reject (the task itself, an ancestor, a dependency with the "
+               "new parent chain) is rejected for EVERY element before the first relation write; a children assignment that fails midway "
+               "leaves dropped tasks that still report the WBS, and re-attaching those skips the id check", floor=3)
+    ctx.guarded(o, lambda o: children_atomic(ctx, o, eff))
 
     o = ctx.ob('receiving_tree_scope', 'R8',
                "the receiving tree is the whole WBS: _find_root returns the WBS root task of an attached task (task.wbs._root()), and "
@@ -135,6 +148,16 @@ def children_mode(ctx, o, eff):
               AND(A('wbsnone(self)'), A('call:_has_id_intersection(self,arg)')), writes, eff, False, mode_filter=_reaches_under)
     T.require(ctx, o, f, "attached receiver: ids of the new children vs the whole WBS",
               AND(N(A('wbsnone(self)')), A('call:_has_id_intersection(self,arg)')), writes, eff, False, mode_filter=_reaches_under)
+
+
+def children_atomic(ctx, o, eff):
+    A = T.F_atom
+    f = ctx.prog.func(SETTERS['children'])
+    writes = relation_write_nodes(ctx, f, eff)
+    for label, R in (("a new child is the task itself", A('same(elem,self)')),
+                     ("the task is a descendant of a new child", A('desc(self,elem)')),
+                     ("a dependency links a new child's subtree with the task or its ancestors", A('call:_has_dependency_with_parents(elem,self)'))):
+        T.require(ctx, o, f, label, R, writes, eff, True)
 
 
 def scope(ctx, o):
@@ -219,7 +242,8 @@ def scope(ctx, o):
             pub_top = says(cs, f"{c}.parent is None", True)
             det = says(cs, f"{c}.wbs is None", True) or says(cs, f"{c}._Task__wbs is None", True)
             if raw_top:
-                o.site(f, r, "top of the tree through the raw parent field (the WBS root task for a member)")
+                o.site(f, r, "attached task: the raw parent chain ends at the WBS root task")
+                o.site(f, r, "detached task: climbs until there is no parent")
             elif pub_top and det:
                 o.site(f, r, "detached task: climbs until there is no parent")
             elif pub_top:
@@ -269,15 +293,20 @@ def _search_loop(g, pid):
         return None
     lp = loops[0]
     tv = lp.target.id
-    if not (match("self._WBS__root.all_children", lp.iter) or match("self.tasks", lp.iter)):
-        return lp, "lookup does not search all members of the WBS"
     if len(lp.body) != 1 or not isinstance(lp.body[0], ast.If) or lp.body[0].orelse or lp.orelse:
         return None
     iff = lp.body[0]
-    if not (match(f"{tv}.id == {pid}", iff.test) or match(f"{pid} == {tv}.id", iff.test)):
-        return lp, f"lookup matches `{src(iff.test)}` instead of `t.id == {pid}`: not exact"
     if not (len(iff.body) == 1 and isinstance(iff.body[0], ast.Return) and isinstance(iff.body[0].value, ast.Name) and iff.body[0].value.id == tv):
         return None
+    # the loop is `for t in X: if <test>: return t`
+    if not (match("self._WBS__root.all_children", lp.iter) or match("self.tasks", lp.iter)):
+        if match("self._WBS__root.children", lp.iter) or match("self.roots", lp.iter) or match("self._WBS__root._Task__children", lp.iter):
+            return lp, "lookup searches only the top-level tasks, not all members of the WBS"
+        return None
+    if not (match(f"{tv}.id == {pid}", iff.test) or match(f"{pid} == {tv}.id", iff.test)):
+        if not any(isinstance(x, ast.Name) and x.id == tv for x in ast.walk(iff.test)):
+            return None
+        return lp, f"lookup matches `{src(iff.test)}` instead of `t.id == {pid}`: not exact"
     return lp, None
 
 
@@ -353,25 +382,34 @@ def lookup(ctx, o):
     f = prog.func('wbs.WBS.__getitem__')
     p = f.params[1]
     found = False
+    default_call = None
     for n in walk_no_nested(f.node):
         if isinstance(n, ast.Call) and isinstance(n.func, ast.Name) and n.func.id == 'next' and n.args:
             parts = facts.comp_parts(n.args[0])
             if parts:
                 elt, tgt, it, ifs = parts
-                it_ok = match("self._WBS__root.all_children", it) or match("self.tasks", it)
+                it = Expander(prog, f, ctx.typer, inline=False).expand(it, cfg_of(f).node_containing(n))
+                it_ok = match("self._WBS__root.all_children", it) or match("self.tasks", it) or \
+                    match("_ImmutableTaskList(self._WBS__root._Task__get_all_children())", it)
                 c_ok = len(ifs) == 1 and (match(f"{tgt.id}.id == {p}", ifs[0]) or match(f"{p} == {tgt.id}.id", ifs[0]))
                 if it_ok and c_ok and isinstance(elt, ast.Name) and elt.id == tgt.id:
                     found = True
                     o.site(f, n, "first member with t.id == id")
                     if len(n.args) > 1:
-                        o.refute(f, n, n, "lookup returns a default instead of raising for a missing id")
+                        default_call = n
                 elif it_ok:
                     o.refute(f, n, n, f"lookup matches `{src(ifs[0]) if ifs else '?'}` instead of `t.id == {p}`: not exact")
                     found = True
-                else:
-                    o.refute(f, n, it, "lookup does not search all members of the WBS")
+                elif match("self._WBS__root.children", it) or match("self.roots", it) or match("self._WBS__root._Task__children", it):
+                    o.refute(f, n, it, "lookup searches only the top-level tasks, not all members of the WBS")
                     found = True
+                else:
+                    o.undecided(f, n, it, f"lookup searches `{src(it)[:50]}`: cannot tell that these are all members of the WBS")
+                    found = True
+    from . import c05_util
     if not found and _loop_lookup(ctx, o, f, p):
+        pass
+    elif not found and c05_util.dfs_lookup(ctx, o, f, p):
         pass
     elif not found:
         o.undecided(f, f.node, '__getitem__', "lookup in an unrecognised form")
@@ -394,17 +432,44 @@ def lookup(ctx, o):
         for h in t.handlers:
             if h.type is not None and src(h.type) == 'StopIteration' and any(isinstance(x, ast.Raise) and facts.exc_name(x) == 'RuntimeError' for x in h.body):
                 ok = True
+    if default_call is not None:
+        # next(.., None) ; if found is None: raise RuntimeError ; return found
+        d = default_call.args[1]
+        ex2 = Expander(prog, f, ctx.typer, inline=False)
+        rets2 = [n for n in walk_no_nested(f.node) if isinstance(n, ast.Return) and n.value is not None]
+        guarded = bool(rets2)
+        for r in rets2:
+            v = ex2.expand(r.value)
+            conds = facts.node_conditions(prog, f, r, ctx.typer, expand=True)
+            if not any(facts.cond_is(t, q, "$x is None", want=False) is not None and same(facts.norm_cond(t, q)[0].left, v) for t, q in conds):
+                guarded = False
+        raises = [x for x in walk_no_nested(f.node) if isinstance(x, ast.Raise)]
+        if isinstance(d, ast.Constant) and d.value is None and guarded and raises and all(facts.exc_name(x) == 'RuntimeError' for x in raises):
+            ok = True
+        else:
+            o.refute(f, default_call, default_call, "lookup returns a default instead of raising RuntimeError for a missing id")
+            return
     if ok:
         o.site(f, f.node, "missing id -> RuntimeError")
     elif found:
         o.refute(f, f.node, 'missing id', "a missing id does not end in RuntimeError")
     g = prog.func('wbs.WBS.tasks')
     rets = [n for n in walk_no_nested(g.node) if isinstance(n, ast.Return)]
-    if len(rets) == 1 and match("self._WBS__root.all_children", rets[0].value):
+    gex = Expander(prog, g, ctx.typer, inline=False)
+    gvals = [gex.expand(r.value) if r.value is not None else None for r in rets]
+    if rets and all(v is not None and (match("self._WBS__root.all_children", v) or match("_ImmutableTaskList(self._WBS__root._Task__get_all_children())", v))
+                    for v in gvals):
         o.site(g, rets[0], "tasks = root.all_children")
+    elif len(rets) == 1 and gvals[0] is not None and (match("self._WBS__root.children", gvals[0]) or match("self.roots", gvals[0])):
+        o.refute(g, g.node, 'tasks', "WBS.tasks lists only the top-level tasks, not every member")
+    elif any(w.root == 'self' for w in Effects(prog, ctx.typer, ctx.cg).direct_writes(g)):
+        w = [w for w in Effects(prog, ctx.typer, ctx.cg).direct_writes(g) if w.root == 'self'][0]
+        o.refute(g, w.node, w.node, f"WBS.tasks keeps state on the WBS ({unmangle(w.field)}): a remembered flat list goes stale when the tree changes")
     else:
-        o.refute(g, g.node, 'tasks', "WBS.tasks is not the root task's all_children")
+        o.undecided(g, g.node, 'tasks', "WBS.tasks is not recognisably the root task's all_children")
     h = prog.func('task.Task.__get_all_children')
+    if c05_util.flat_list_cache(ctx, o) is not None:
+        return
     gen = next((x for x in prog.all_funcs() if x.parent is h), None)
     if gen is None:
         o.undecided(h, h.node, 'all_children', "no nested generator")
